@@ -17,13 +17,15 @@ CONSTANTS Writers,        \* writer processes; each sends one message of Frames[
                           \*            "BlockingPong", "NoWaitForCloser"}
           PeerMay,        \* subset of {"ping", "pong", "pong2", "guess", "fpong", "data", "close", "echo", "noread"}
           CtxProcs,       \* calls whose context the application may cancel at any moment (C10); {} switches this part off
-          Extra,          \* subset of {"N", "CR", "AC"}: a concurrent CloseNow; the CloseRead goroutine (then it, not R, is the reader);
-                          \* the asynchronous close() that a lock wait starts when its context expires (go m.c.close() in mu.lock)
+          Extra,          \* subset of {"N", "CR", "AC", "CasWindow"}: a concurrent CloseNow; the CloseRead goroutine (then it, not R, is the
+                          \* reader); the asynchronous close() that a lock wait starts when its context expires (go m.c.close() in mu.lock);
+                          \* "CasWindow": casClosing is not atomic for TryLock(closeMu) (see DoCloseRd) -- a switch, not a process
+          Client,         \* TRUE: the endpoint is the client (its close() also takes writeFrameMu by force: the pooled bufio.Writer is its own)
           Timers          \* subset of {"T5lock", "T5wait", "T5write"}: the 5 s timers of waitCloseHandshake and of control-frame writes
                           \* that may fire ({} = "promptly")
 K == "K"  R == "R"  P == "P"  N == "N"  CR == "CR"  AC == "AC"
 FramesOf == [w \in Writers |-> IF w \in TwoFrame THEN 2 ELSE 1]
-Procs == Writers \cup {K, R, P} \cup Extra
+Procs == Writers \cup {K, R, P} \cup (Extra \ {"CasWindow"})
 VARIABLES closed, closing, sentClose, lk, out, emitting, inq, pc, pingActive, pongSig, peerDid, ret, tl, wframe,
           armedW,      \* the call whose context the timeoutLoop currently watches for writes ("none" = Background)
           cancelled,   \* calls whose context the application has cancelled
@@ -126,15 +128,19 @@ CmAcquire(p, st) == /\ pc[p] = st \o "_cl0" /\ lk["cm"] = "free" /\ lk' = [lk EX
 CmFlip(p, st) == /\ pc[p] = st \o "_clA"
                  /\ IF closed THEN Goto(p, st \o "_clZ") /\ U(closed) ELSE closed' = TRUE /\ Goto(p, st \o "_cl1")
                  /\ U(<<closing, sentClose, lk, out, emitting, inq, pingActive, pongSig, peerDid, ret, tl, wframe, armedW, cancelled, fired>>)
-CmForceWf(p, st) == /\ pc[p] = st \o "_cl1" /\ lk["wf"] = "free" /\ lk' = [lk EXCEPT !["wf"] = "close"] /\ Goto(p, st \o "_cl2") /\ U(Rest)
+CmForceWf(p, st) == /\ pc[p] = st \o "_cl1" /\ Goto(p, st \o "_cl2") /\ U(Rest)
+                    /\ IF Client THEN lk["wf"] = "free" /\ lk' = [lk EXCEPT !["wf"] = "close"] ELSE U(lk)   \* msgWriter.close: client only
 CmForceRd(p, st, holdsRd) == /\ pc[p] = st \o "_cl2" /\ Goto(p, st \o "_clZ") /\ U(Rest)
                              /\ IF holdsRd THEN U(lk) ELSE lk["rd"] = "free" /\ lk' = [lk EXCEPT !["rd"] = "close"]
 CmRelease(p, st, after) == /\ pc[p] = st \o "_clZ" /\ lk' = [lk EXCEPT !["cm"] = "free"] /\ Goto(p, after) /\ U(Rest)
 DoClose(p, st, after) == CmAcquire(p, st) \/ CmFlip(p, st) \/ CmForceWf(p, st) \/ CmForceRd(p, st, FALSE) \/ CmRelease(p, st, after)
 DoCloseRd(p, st, after) ==
+   \* TryLock(closeMu) succeeds only if nobody holds it; it also fails while somebody is inside casClosing, which takes closeMu for
+   \* a moment and is one atomic step here: a process that is about to run casClosing may be the holder
    \/ /\ pc[p] = st \o "_cl0" /\ U(Rest)
-      /\ IF lk["cm"] = "free" THEN lk' = [lk EXCEPT !["cm"] = p] /\ Goto(p, st \o "_clA")
-         ELSE "BlockingCloseMu" \notin Dev /\ lk' = [lk EXCEPT !["rd"] = "free"] /\ Goto(p, st \o "f_cl0")
+      /\ \/ lk["cm"] = "free" /\ lk' = [lk EXCEPT !["cm"] = p] /\ Goto(p, st \o "_clA")
+         \/ /\ lk["cm"] # "free" \/ ("CasWindow" \in Extra /\ \E x \in Procs : pc[x] \in {"k_cas", "n_cas", "c_cas"})
+            /\ "BlockingCloseMu" \notin Dev /\ lk' = [lk EXCEPT !["rd"] = "free"] /\ Goto(p, st \o "f_cl0")
    \/ CmFlip(p, st) \/ CmForceWf(p, st) \/ CmForceRd(p, st, TRUE) \/ CmRelease(p, st, after)
    \/ DoClose(p, st \o "f", after)
 (* casClosing: only one of Close, CloseNow and the CloseRead goroutine wins *)
@@ -177,10 +183,14 @@ Reader == RLock \/ ReaderBody(R, "r", "r_done", "r_hdr_in")
 (* Close: casClosing, writeClose, waitCloseHandshake (5 s lock wait, 5 s read wait), close(), waitGoroutines *)
 WaitLock(p, at, ok, fail) == /\ pc[p] = at
              /\ \/ TryLock(p, "rd", ok, fail)
-                \/ "T5lock" \in Timers /\ lk["rd"] # "free" /\ ~closed /\ Goto(p, fail) /\ U(lk)       \* 5 s lock timeout
+                \* 5 s lock timeout: like every lock wait whose context expires it closes the connection through a goroutine of its own
+                \/ "T5lock" \in Timers /\ lk["rd"] # "free" /\ ~closed /\ U(lk)
+                   /\ IF AC \in Extra THEN pc' = [pc EXCEPT ![p] = fail, ![AC] = IF @ = "ac_idle" THEN "ac_cl0" ELSE @] ELSE Goto(p, fail)
              /\ U(<<closed, closing, sentClose, out, emitting, inq, pingActive, pongSig, peerDid, ret, tl, wframe, armedW, cancelled, fired>>)
-T5(p, st) == /\ "T5wait" \in Timers /\ pc[p] = st \o "_hdr_in" /\ inq = <<>> /\ ~closed /\ Goto(p, st \o "_rdunlock")   \* 5 s wait for the peer's Close
-             /\ U(<<closed, closing, sentClose, lk, out, emitting, inq, pingActive, pongSig, peerDid, ret, tl, wframe, armedW, cancelled, fired>>)
+(* the 5 s wait for the peer's Close frame ends: the timeoutLoop, which watches that context, closes the connection (its close()  *)
+(* body is collapsed into the flag flip, as in TLFireW); the blocked read is then woken like any other                          *)
+T5(p, st) == /\ "T5wait" \in Timers /\ pc[p] = st \o "_hdr_in" /\ inq = <<>> /\ ~closed /\ tl = "running" /\ closed' = TRUE
+             /\ U(<<closing, sentClose, lk, out, emitting, inq, pc, pingActive, pongSig, peerDid, ret, tl, wframe, armedW, cancelled, fired>>)
 KPre == /\ pc[K] = "k_cl0pre" /\ Goto(K, "k_cl0")
         /\ U(<<closed, closing, sentClose, lk, out, emitting, inq, pingActive, pongSig, peerDid, ret, tl, wframe, armedW, cancelled, fired>>)
 WaitGor(p, at, done, val) == /\ pc[p] = at /\ WgReady /\ Goto(p, done) /\ ret' = [ret EXCEPT ![p] = val]
